@@ -62,7 +62,7 @@
 //   * usage_exact (C09): the depot usage table has its from-scratch value;
 //   * costs <= 2^61 (C09 magnitude: `costs += tour.costs()` in u64);
 //   * the path is not empty (`nodes.first().unwrap()`), its nodes are nodes of the network, A-len (tour_len_ok);
-//   * A-idwidth: vehicle_counter <= 0xffff (`self.vehicle_counter as Idx`);
+//   * (A-idwidth is gone: D11 -- Schedule::next_free_idx refuses when all 2^16 ids have been handed out);
 //   * A-counter: spawn_counter_ok (the uninterpreted maintenance counter of the new tour is within +-2^40).
 //
 // NOT covered:
@@ -324,6 +324,18 @@ impl Clone for TransitionCycle {
             ==> final(transitions)@[vt] == old(transitions)@[vt], // @obl C10.update_transitions.other_types_untouched
 //@end
 
+// D11 (fixed in /repo): the index of the next vehicle or dummy; refuses when all 2^16 indices have been handed out.
+// `//@item?`: on a tree without this function (the unfixed code casts `self.vehicle_counter as Idx`) the item is skipped
+// and the obligations of spawn_vehicle_for_path that need a fresh id fail.
+//@item? solution/src/schedule/modifications.rs Schedule::next_free_idx
+//@retname r
+//@fmt-nonempty
+//@sig
+    ensures
+        vehicle_counter <= 0xffff ==> r == Ok::<Idx, String>(vehicle_counter as u16),
+        vehicle_counter > 0xffff ==> r is Err, // @obl C13.next_free_idx.refuses_when_all_indices_are_used
+//@end
+
 // ---- the function under contract ----------------------------------------------------------------------
 //@item solution/src/schedule/modifications.rs Schedule::spawn_vehicle_for_path
 //@viter
@@ -334,14 +346,15 @@ impl Clone for TransitionCycle {
         self.type_known(vehicle_type_idx),
         // `*nodes.first().unwrap()`; the nodes of the path are nodes of the network (`self.network.node(..)`); A-len
         path_as_vec@.len() >= 1, all_in_net(&self.network, path_as_vec@), tour_len_ok(path_as_vec@),
-        // A-idwidth: ids are 16 bit (`self.vehicle_counter as Idx`): fewer than 2^16 ids handed out so far
-        self.vehicle_counter <= 0xffff,
         // A-counter (magnitude)
         self.spawn_counter_ok(path_as_vec@),
     ensures
         // C01 / C10 "a vehicle only serves service trips of the vehicle's type": "If some node on the path is not
         // compatible with the vehicle type an error is returned", and every node of the new vehicle's tour is compatible
         !all_compatible(&self.network, path_as_vec@, vehicle_type_idx) ==> r is Err, // @obl C01.spawn_vehicle.only_compatible_nodes
+        // D11: ids are 16 bit and never reused: when all 2^16 have been handed out the spawn is refused (the unfixed code
+        // wrapped around and overwrote the vehicle stored under id 0)
+        self.vehicle_counter > 0xffff ==> r is Err, // @obl C13.spawn_vehicle.refuses_instead_of_reusing_an_id
         r is Ok ==> all_compatible(&self.network, r->Ok_0.0.tours@[r->Ok_0.1].nodes@, vehicle_type_idx), // @obl C01.spawn_vehicle.only_compatible_nodes
         // C13 "documented effect and nothing else"
         r is Ok ==> self.spawned(vehicle_type_idx, path_as_vec@, &r->Ok_0.0, r->Ok_0.1), // @obl C13.spawn_vehicle.adds_exactly_one_vehicle_with_the_given_path
@@ -369,7 +382,7 @@ impl Clone for TransitionCycle {
         let ghost id = self.next_vehicle_id();
         let ghost l0 = self.listing(vehicle_type_idx);
         proof {
-            lemma_fresh_id(self);
+            if self.vehicle_counter <= 0xffff { lemma_fresh_id(self); }
             // C10 "listings sorted": putting the id where binary_search says keeps the list sorted
             assert forall|q: Result<usize, usize>| #[trigger] bsearch_post(l0, id, q)
                 implies 0 <= bs_pos(q) <= l0.len() && sorted_cmp(l0.insert(bs_pos(q), id)) by {
